@@ -273,7 +273,14 @@ type richFlat struct {
 	JSONOnly *string `cbor:"-" json:"json-only,omitempty"`
 	Neither  string  `cbor:"-" json:"-"`
 	Last     *int64  `cbor:"11,keyasint,omitempty" json:"last,omitempty"`
+	// keys beyond 32 bits
+	Wide    *int64 `cbor:"4294967301,keyasint,omitempty" json:"wide,omitempty"`
+	WideNeg *int64 `cbor:"-4294967303,keyasint,omitempty" json:"wide-neg,omitempty"`
+	// an embedded named NON-struct type is an ordinary field (named after its type)
+	RichBytes `cbor:"12,keyasint,omitempty" json:"rich-bytes,omitempty"`
 }
+
+type RichBytes []byte
 
 type richNested struct {
 	X int64  `cbor:"1,keyasint" json:"x"`
@@ -298,6 +305,9 @@ func c15Rich(c *mon.Ctx, g *model.Gen) {
 		v.CborOnly, v.JSONOnly, v.Neither = model.SP(g.NonEmptyText()), model.SP(g.NonEmptyText()), "bookkeeping"
 		l := int64(g.R.Intn(100))
 		v.Last = &l
+		w1, w2 := int64(g.R.Intn(1000)), int64(-g.R.Intn(1000))
+		v.Wide, v.WideNeg = &w1, &w2
+		v.RichBytes = RichBytes(g.Bytes(1 + g.R.Intn(8)))
 	}
 	if g.R.Intn(2) == 0 {
 		v.List = []richNested{{X: 1}, {X: 2, Y: g.Text()}}
